@@ -214,7 +214,13 @@ static void run_case(void)
             seg_iter_frames(seg, &sf, &ef);
             seg_iter_prob(seg, &ascr, &lscr);
             printf("H %s %d %d %d %d\n", seg_iter_word(seg), sf, ef, ascr, lscr);
-            lastef = ef;
+            /* the frame the result really ends in is the frame of the history entry the score was taken
+             * from, not what the iterator reports (it clamps the frame -1 null markers to frame 0);
+             * bestpath is off, so this is the fsg_seg_t of fsg_search_seg_iter */
+            {
+                fsg_seg_t *fs = (fsg_seg_t *)seg;
+                lastef = fsg_hist_entry_frame(fs->hist[fs->cur]);
+            }
         }
         if (score != 0x7fffffff)
             printf("R %d %d %d %s\n", T, score, lastef, *h ? h : "-");
